@@ -349,6 +349,15 @@ fn gen_specdir(r: &mut Rng, sw: &Swarm) -> Vec<FileSpec> {
         }
         return out;
     }
+    if r.chance(1, 6) {
+        // an explicit prepend that names the very directory the implicit entry adds
+        let (var, sub) = *r.pick(&[("PATH", "bin"), ("LD_LIBRARY_PATH", "lib"), ("CPATH", "include"), ("PKG_CONFIG_PATH", "pkgconfig")]);
+        let dir = *r.pick(&["env.build", "env.launch", "env"]);
+        let f = |path: String, data: Vec<u8>| FileSpec { path: path.into_bytes(), data, mode: 0o644 };
+        out.push(f(format!("{dir}/{var}.prepend"), format!("$LAYER/{sub}").into_bytes()));
+        out.push(f(format!("{dir}/{var}.delim"), b":".to_vec()));
+        return out;
+    }
     let n = 1 + r.usize(6);
     for _ in 0..n {
         let dir = *r.pick(&DIRS);
